@@ -1,6 +1,9 @@
 (** C18 — haplotype blocks: property theorems only (statement, [exact] of a lemma of Proofs/C18_Haplo.v,
     [Print Assumptions]).  Model: Model/C18_Haplo.v, generic in the number type [T] of genetic positions
-    ([ops T]; instances [fops] = binary64 as executed, [qops] = exact rationals). *)
+    ([ops T]; instances [fops] = binary64 as executed, [qops] = exact rationals).
+    haplobin is modelled WITH its repair pass (defect C18-empty-bin, repaired): after the equal-width bins of a chromosome
+    a pass over its markers lets a label exceed its predecessor by at most one and keeps one marker for every remaining
+    block.  [old_haplobin] / [old_calc_haplomat] (Proofs/C18_Haplo.v) are the FORMER code, kept as regression witness. *)
 From Coq Require Import PrimFloat Sorted.
 From PV Require Import Lib.Common Model.C18_Haplo Proofs.C18_Haplo Proofs.C18_Float.
 Local Open Scope nat_scope.
@@ -17,8 +20,9 @@ Print Assumptions C18_apportion_total.
 (** haplobin on a genome whose chromosome groups tile the marker array ([concat chrs]; start/stop indices are the
     running sums of the chromosome lengths), positions sorted within chromosomes, >= 1 block per chromosome:
     every marker receives exactly one label ([map Some]), the labels of chromosome c lie in its own range
-    [offset c, offset (c+1)) (blocks stay within chromosomes, every chromosome has at least one block), and the
-    label array is non-decreasing (blocks contiguous and ordered).  Holds for ANY total preorder [o_leb] on the
+    [offset c, offset (c+1)) (blocks stay within chromosomes), the label array is non-decreasing (blocks contiguous and
+    ordered), and when no chromosome has fewer markers than blocks EVERY label 0..total-1 is carried by a marker (every
+    chromosome has all its blocks, exactly the requested total is used).  Holds for ANY total preorder [o_leb] on the
     positions that are proper numbers ([ok]) and ANY boundary lists made of proper numbers whose first element
     is not above the chromosome's first marker ([bounds_ok]; the last boundary is the last marker by construction). *)
 Theorem C18_bins_cover_once_monotone : forall (T : Type) (O : ops T) (ok : T -> Prop),
@@ -30,7 +34,8 @@ Theorem C18_bins_cover_once_monotone : forall (T : Type) (O : ops T) (ok : T -> 
     haplobin O nblk (concat chrs) (starts_from 0 (map (@length T) chrs)) (stops_from 0 (map (@length T) chrs)) = map Some (concat labs)
     /\ Forall2 (fun c l => length l = length c) chrs labs
     /\ (forall c l, nth_error labs c = Some l -> Forall (fun j => offset nblk c <= j < offset nblk (S c)) l)
-    /\ StronglySorted Nat.le (concat labs).
+    /\ StronglySorted Nat.le (concat labs)
+    /\ (Forall2 (fun n c => n <= length c) nblk chrs -> forall j, j < list_sum nblk -> In j (concat labs)).
 Proof. exact @haplobin_spec. Qed.
 Print Assumptions C18_bins_cover_once_monotone.
 
@@ -43,7 +48,8 @@ Theorem C18_bins_cover_once_monotone_Q : forall (chrs : list (list Q)) (nblk : l
     haplobin qops nblk (concat chrs) (starts_from 0 (map (@length Q) chrs)) (stops_from 0 (map (@length Q) chrs)) = map Some (concat labs)
     /\ Forall2 (fun c l => length l = length c) chrs labs
     /\ (forall c l, nth_error labs c = Some l -> Forall (fun j => offset nblk c <= j < offset nblk (S c)) l)
-    /\ StronglySorted Nat.le (concat labs).
+    /\ StronglySorted Nat.le (concat labs)
+    /\ (Forall2 (fun n c => n <= length c) nblk chrs -> forall j, j < list_sum nblk -> In j (concat labs)).
 Proof. exact q_haplobin_spec. Qed.
 Print Assumptions C18_bins_cover_once_monotone_Q.
 
@@ -57,25 +63,58 @@ Theorem C18_bins_cover_once_monotone_binary64 : forall (chrs : list (list PrimFl
     haplobin fops nblk (concat chrs) (starts_from 0 (map (@length PrimFloat.float) chrs)) (stops_from 0 (map (@length PrimFloat.float) chrs)) = map Some (concat labs)
     /\ Forall2 (fun c l => length l = length c) chrs labs
     /\ (forall c l, nth_error labs c = Some l -> Forall (fun j => offset nblk c <= j < offset nblk (S c)) l)
-    /\ StronglySorted Nat.le (concat labs).
+    /\ StronglySorted Nat.le (concat labs)
+    /\ (Forall2 (fun n c => n <= length c) nblk chrs -> forall j, j < list_sum nblk -> In j (concat labs)).
 Proof. exact f_haplobin_spec. Qed.
 Print Assumptions C18_bins_cover_once_monotone_binary64.
 
-(** "Uses exactly the requested total", PARTIAL: on a valid layout whose counts add up to the requested total, if every
-    label 0..nhap-1 is carried by some marker (no equal-width bin lost all its markers) then the labels are exactly
-    0..nhap-1, non-decreasing, and haplobin_bounds yields exactly nhap runs (the guard of the theorems below). *)
-Theorem C18_requested_total_partial : forall (T : Type) (O : ops T) (ok : T -> Prop),
+(** "Uses exactly the requested total" at FULL strength (was C18_requested_total_partial, guarded by "no equal-width bin lost
+    all its markers", before the repair): for ANY number type and comparison, on a layout whose chromosome groups tile the
+    markers, with between 1 and #markers blocks on every chromosome and counts adding up to the requested total, whenever
+    every marker is labelled the labels are non-decreasing, they are exactly 0..nhap-1, and haplobin_bounds yields exactly
+    nhap runs.  (Every marker IS labelled on sorted layouts: the three theorems above.) *)
+Theorem C18_requested_total : forall (T : Type) (O : ops T) (chrs : list (list T)) (nblk : list nat) (nhap : nat) (lab : list nat),
+  chrs <> [] -> Forall (fun c => c <> []) chrs -> Forall (fun n => 1 <= n) nblk ->
+  Forall2 (fun n c => n <= length c) nblk chrs -> list_sum nblk = nhap ->
+  haplobin O nblk (concat chrs) (starts_from 0 (map (@length T) chrs)) (stops_from 0 (map (@length T) chrs)) = map Some lab ->
+  StronglySorted Nat.le lab /\ (forall j, In j lab <-> j < nhap)
+  /\ exists hst hsp hlen, haplobin_bounds lab = Ok (hst, hsp, hlen) /\ length (combine hst hsp) = nhap.
+Proof. exact @requested_total. Qed.
+Print Assumptions C18_requested_total.
+
+(** The repair keeps the equal-width binning wherever it was right: under the ordering hypotheses, if every equal-width bin
+    holds a marker (every label occurs among the labels of the FORMER code), haplobin returns exactly what the former code
+    returned. *)
+Theorem C18_equal_width_kept : forall (T : Type) (O : ops T) (ok : T -> Prop),
   (forall x y, ok x -> ok y -> o_leb O x y = true \/ o_leb O y x = true) ->
   (forall x y z, ok x -> ok y -> ok z -> o_leb O x y = true -> o_leb O y z = true -> o_leb O x z = true) ->
-  forall (chrs : list (list T)) (nblk : list nat) (nhap : nat) (lab : list nat),
-  chrs <> [] -> Forall (fun n => 1 <= n) nblk -> Forall (chrom_ok O ok) chrs -> Forall2 (bounds_ok O ok) nblk chrs ->
-  list_sum nblk = nhap ->
-  haplobin O nblk (concat chrs) (starts_from 0 (map (@length T) chrs)) (stops_from 0 (map (@length T) chrs)) = map Some lab ->
-  (forall j, j < nhap -> In j lab) ->
-  StronglySorted Nat.le lab /\ (forall j, In j lab -> j < nhap)
-  /\ exists hst hsp hlen, haplobin_bounds lab = Ok (hst, hsp, hlen) /\ length (combine hst hsp) = nhap.
-Proof. exact @all_bins_nonempty_runs. Qed.
-Print Assumptions C18_requested_total_partial.
+  forall (chrs : list (list T)) (nblk : list nat),
+  Forall (fun n => 1 <= n) nblk -> Forall (chrom_ok O ok) chrs -> Forall2 (bounds_ok O ok) nblk chrs ->
+  (forall j, j < list_sum nblk ->
+     In (Some j) (old_haplobin O nblk (concat chrs) (starts_from 0 (map (@length T) chrs)) (stops_from 0 (map (@length T) chrs)))) ->
+  haplobin O nblk (concat chrs) (starts_from 0 (map (@length T) chrs)) (stops_from 0 (map (@length T) chrs))
+  = old_haplobin O nblk (concat chrs) (starts_from 0 (map (@length T) chrs)) (stops_from 0 (map (@length T) chrs)).
+Proof. exact @equal_width_kept. Qed.
+Print Assumptions C18_equal_width_kept.
+
+(** ... in particular for the executed binary64 instance under the decidable hypothesis, and unconditionally over Q *)
+Theorem C18_equal_width_kept_binary64 : forall (chrs : list (list PrimFloat.float)) (nblk : list nat), lin_hyp_f nblk chrs = true ->
+  (forall j, j < list_sum nblk ->
+     In (Some j) (old_haplobin fops nblk (concat chrs) (starts_from 0 (map (@length PrimFloat.float) chrs)) (stops_from 0 (map (@length PrimFloat.float) chrs)))) ->
+  haplobin fops nblk (concat chrs) (starts_from 0 (map (@length PrimFloat.float) chrs)) (stops_from 0 (map (@length PrimFloat.float) chrs))
+  = old_haplobin fops nblk (concat chrs) (starts_from 0 (map (@length PrimFloat.float) chrs)) (stops_from 0 (map (@length PrimFloat.float) chrs)).
+Proof. exact f_equal_width_kept. Qed.
+Print Assumptions C18_equal_width_kept_binary64.
+
+Theorem C18_equal_width_kept_Q : forall (chrs : list (list Q)) (nblk : list nat),
+  length nblk = length chrs -> Forall (fun n => 1 <= n) nblk ->
+  Forall (fun c => c <> [] /\ StronglySorted (fun x y => Qle_bool x y = true) c) chrs ->
+  (forall j, j < list_sum nblk ->
+     In (Some j) (old_haplobin qops nblk (concat chrs) (starts_from 0 (map (@length Q) chrs)) (stops_from 0 (map (@length Q) chrs)))) ->
+  haplobin qops nblk (concat chrs) (starts_from 0 (map (@length Q) chrs)) (stops_from 0 (map (@length Q) chrs))
+  = old_haplobin qops nblk (concat chrs) (starts_from 0 (map (@length Q) chrs)) (stops_from 0 (map (@length Q) chrs)).
+Proof. exact q_equal_width_kept. Qed.
+Print Assumptions C18_equal_width_kept_Q.
 
 (** haplobin_bounds on any non-empty label array: the (start, stop) pairs form a chain 0 = s0 < e0 = s1 < ... = p of
     non-empty runs, lengths = stop - start, and they are a run-length encoding of the labels: decoding the runs with
@@ -94,24 +133,48 @@ Theorem C18_block_sum_conservation : forall (g : list Z) (ucol : list Q) (bs : l
 Proof. exact block_sum_conservation. Qed.
 Print Assumptions C18_block_sum_conservation.
 
-(** haplomat / _calc_haplomat as coded (every number type): whenever the call succeeds the block boundaries partition the
-    markers into between 1 and nhaploblk non-empty runs.  PARTIAL (guard = exactly nhaploblk runs): every entry is written
-    (finite) and for every copy and trait the block values add up to the copy's additive value.  Otherwise block number
-    #runs of every copy is NEVER written (numpy.empty memory). *)
-Theorem C18_haplomat_conservation_partial : forall (T : Type) (O : ops T) (chrs : list (list T)) (e1 e2 : err) (nhap : nat)
-    (geno : list (list (list Z))) (clen : list nat) (u : list (list Q)) (nt : nat) (hm : hmat_t),
+(** haplomat / _calc_haplomat at FULL strength (was C18_haplomat_conservation_partial, guarded by "exactly nhaploblk runs"): for
+    every number type, whenever the call succeeds on a genome whose chromosome groups tile the markers (chrgrp_len = the group
+    lengths) the block boundaries partition the markers into EXACTLY nhaploblk non-empty runs, every entry of the (m,n,b,t)
+    array is written (finite), and for every copy and trait the block values add up to the copy's additive value. *)
+Theorem C18_haplomat_conservation : forall (T : Type) (O : ops T) (chrs : list (list T)) (e1 e2 : err) (nhap : nat)
+    (geno : list (list (list Z))) (u : list (list Q)) (nt : nat) (hm : hmat_t),
   chrs <> [] -> Forall (fun c => c <> []) chrs ->
-  calc_haplomat O e1 e2 nhap geno (concat chrs) (starts_from 0 (map (@length T) chrs)) (stops_from 0 (map (@length T) chrs)) clen u nt = Ok hm ->
+  calc_haplomat O e1 e2 nhap geno (concat chrs) (starts_from 0 (map (@length T) chrs)) (stops_from 0 (map (@length T) chrs))
+                (map (@length T) chrs) u nt = Ok hm ->
   exists bounds, calc_bounds O nhap (concat chrs) (starts_from 0 (map (@length T) chrs)) (stops_from 0 (map (@length T) chrs)) = Some bounds
-    /\ hm = hmat_of nhap nt geno u bounds /\ chain 0 bounds (length (concat chrs)) /\ 1 <= length bounds <= nhap
-    /\ (length bounds = nhap -> forall g t, length g = length (concat chrs) -> length u = length (concat chrs) -> t < nt ->
+    /\ hm = hmat_of nhap nt geno u bounds /\ chain 0 bounds (length (concat chrs)) /\ length bounds = nhap
+    /\ forall g t, length g = length (concat chrs) -> length u = length (concat chrs) -> t < nt ->
           (forall b, b < nhap -> exists q, ent (cand_of nhap nt u bounds g) b t = Some q)
-          /\ exists s, osum (map (fun b => ent (cand_of nhap nt u bounds g) b t) (seq 0 nhap)) = Some s /\ (s == dotZQ g (col 0%Q t u))%Q)
-    /\ (length bounds < nhap -> forall g t, t < nt -> ent (cand_of nhap nt u bounds g) (length bounds) t = None).
-Proof. exact @haplomat_partial. Qed.
-Print Assumptions C18_haplomat_conservation_partial.
+          /\ exists s, osum (map (fun b => ent (cand_of nhap nt u bounds g) b t) (seq 0 nhap)) = Some s /\ (s == dotZQ g (col 0%Q t u))%Q.
+Proof. exact @haplomat_full. Qed.
+Print Assumptions C18_haplomat_conservation.
 
-(** Optimal haploid value of a parent tuple (PARTIAL: as many runs as requested blocks): it is defined, equals
+(** ... and the call DOES succeed on every valid input: sorted non-empty chromosomes, at least as many blocks as chromosomes,
+    no chromosome given more blocks than it has markers — unconditionally over Q, and for the executed binary64 instance under
+    the decidable hypothesis [lin_hyp_f] on the apportioned counts. *)
+Theorem C18_haplomat_succeeds_Q : forall (chrs : list (list Q)) (nblk : list nat) (e1 e2 : err) (nhap : nat)
+    (geno : list (list (list Z))) (u : list (list Q)) (nt : nat),
+  chrs <> [] -> Forall (fun c => c <> [] /\ StronglySorted (fun x y => Qle_bool x y = true) c) chrs -> length chrs <= nhap ->
+  nhaploblk_chrom qops nhap (concat chrs) (starts_from 0 (map (@length Q) chrs)) (stops_from 0 (map (@length Q) chrs)) = Ok nblk ->
+  Forall2 (fun n c => n <= length c) nblk chrs ->
+  exists hm, calc_haplomat qops e1 e2 nhap geno (concat chrs) (starts_from 0 (map (@length Q) chrs)) (stops_from 0 (map (@length Q) chrs))
+                           (map (@length Q) chrs) u nt = Ok hm.
+Proof. exact q_haplomat_succeeds. Qed.
+Print Assumptions C18_haplomat_succeeds_Q.
+
+Theorem C18_haplomat_succeeds_binary64 : forall (chrs : list (list PrimFloat.float)) (nblk : list nat) (e1 e2 : err) (nhap : nat)
+    (geno : list (list (list Z))) (u : list (list Q)) (nt : nat),
+  chrs <> [] -> length chrs <= nhap ->
+  nhaploblk_chrom fops nhap (concat chrs) (starts_from 0 (map (@length PrimFloat.float) chrs)) (stops_from 0 (map (@length PrimFloat.float) chrs)) = Ok nblk ->
+  lin_hyp_f nblk chrs = true -> Forall2 (fun n c => n <= length c) nblk chrs ->
+  exists hm, calc_haplomat fops e1 e2 nhap geno (concat chrs) (starts_from 0 (map (@length PrimFloat.float) chrs))
+               (stops_from 0 (map (@length PrimFloat.float) chrs)) (map (@length PrimFloat.float) chrs) u nt = Ok hm.
+Proof. exact f_haplomat_succeeds. Qed.
+Print Assumptions C18_haplomat_succeeds_binary64.
+
+(** Optimal haploid value of a parent tuple over a partition into as many runs as requested blocks (which the theorem
+    above provides for every successful call): it is defined, equals
     ploidy * sum over blocks of [bestv] where [bestv] is an upper bound of, and attained by, the block values of the
     designated (phase, parent) copies; and it is at least ploidy * (additive value of ANY haplotype that takes each block
     from one of the designated copies) — the doubled haploids recombining only at block boundaries. *)
@@ -136,26 +199,28 @@ Theorem C18_xmap_valid : forall ntaxa nparent uniq,
 Proof. exact calc_xmap_valid. Qed.
 Print Assumptions C18_xmap_valid.
 
-(** The OHV problem as built by from_pgmat_gpmod (haplomat -> cross map -> ohvmat), PARTIAL under the guard "as many runs
-    as requested blocks": for every cross of the map and every trait the entry of ohvmat is defined (finite) and is at least
-    ploidy * (value of any haplotype assembled block by block from the phases of that cross's parents). *)
-Theorem C18_ohv_problem_partial : forall (T : Type) (O : ops T) (chrs : list (list T)) (e1 e2 : err) (nhap : nat)
-    (geno : list (list (list Z))) (clen : list nat) (u : list (list Q)) (nt : nat) (hm : hmat_t)
-    (ntaxa nparent : nat) (uniq : bool) (bounds : list (nat * nat)),
+(** The OHV problem as built by from_pgmat_gpmod (haplomat -> cross map -> ohvmat) at FULL strength (was
+    C18_ohv_problem_partial, guarded by "as many runs as requested blocks"): for every number type, whenever the haplotype
+    matrix is built there are exactly nhaploblk blocks, and for every cross of the map and every trait the entry of ohvmat is
+    defined (finite) and is at least ploidy * (value of any haplotype assembled block by block from the phases of that cross's
+    parents). *)
+Theorem C18_ohv_problem : forall (T : Type) (O : ops T) (chrs : list (list T)) (e1 e2 : err) (nhap : nat)
+    (geno : list (list (list Z))) (u : list (list Q)) (nt : nat) (hm : hmat_t) (ntaxa nparent : nat) (uniq : bool),
   chrs <> [] -> Forall (fun c => c <> []) chrs ->
-  calc_haplomat O e1 e2 nhap geno (concat chrs) (starts_from 0 (map (@length T) chrs)) (stops_from 0 (map (@length T) chrs)) clen u nt = Ok hm ->
-  calc_bounds O nhap (concat chrs) (starts_from 0 (map (@length T) chrs)) (stops_from 0 (map (@length T) chrs)) = Some bounds ->
-  length bounds = nhap ->
+  calc_haplomat O e1 e2 nhap geno (concat chrs) (starts_from 0 (map (@length T) chrs)) (stops_from 0 (map (@length T) chrs))
+                (map (@length T) chrs) u nt = Ok hm ->
   geno <> [] -> Forall (fun phm => length phm = ntaxa /\ Forall (fun g => length g = length (concat chrs)) phm) geno ->
   length u = length (concat chrs) -> 1 <= nparent ->
-  forall s xc t, nth_error (calc_xmap ntaxa nparent uniq) s = Some xc -> t < nt ->
+  exists bounds, calc_bounds O nhap (concat chrs) (starts_from 0 (map (@length T) chrs)) (stops_from 0 (map (@length T) chrs)) = Some bounds
+    /\ length bounds = nhap /\ chain 0 bounds (length (concat chrs))
+    /\ forall s xc t, nth_error (calc_xmap ntaxa nparent uniq) s = Some xc -> t < nt ->
   exists V, nth_error (calc_ohvmat (Z.of_nat (length geno)) nhap nt hm (calc_xmap ntaxa nparent uniq)) s
               = Some (ohv_row (Z.of_nat (length geno)) nhap nt (cands hm xc))
     /\ nth t (ohv_row (Z.of_nat (length geno)) nhap nt (cands hm xc)) None = Some V
     /\ forall src : nat -> list Z, (forall b, b < nhap -> In (src b) (copies geno xc)) ->
          (inject_Z (Z.of_nat (length geno)) * dotZQ (recomb src 0 bounds) (col 0%Q t u) <= V)%Q.
-Proof. exact @ohv_problem_partial. Qed.
-Print Assumptions C18_ohv_problem_partial.
+Proof. exact @ohv_problem. Qed.
+Print Assumptions C18_ohv_problem.
 
 (** the optimal population value latentfn is minus the same quantity with the selected individuals as the designated
     parents and ploidy = number of phases, so the theorem above covers it *)
@@ -164,31 +229,44 @@ Theorem C18_opv_is_ohv_of_selection : forall (nb nt : nat) (hm : hmat_t) (x : li
 Proof. exact opv_latent_nth. Qed.
 Print Assumptions C18_opv_is_ohv_of_selection.
 
-(** REFUTED clause "uses exactly the requested total": a valid layout (sorted, #chr <= total <= #markers, no chromosome
-    gets more blocks than markers) for which fewer runs than requested blocks are produced: positions 0, 1/64, 2/64, 3/64, 1
-    with 3 blocks — the middle equal-width bin is empty. *)
-Theorem C18_requested_total_refuted :
+(** REGRESSION WITNESS, FORMER code ([old_calc_bounds] = nhaploblk_chrom, the bare equal-width bins, haplobin_bounds): the clause
+    "uses exactly the requested total" was false: a valid layout (sorted, #chr <= total <= #markers, no chromosome gets more
+    blocks than markers) gave fewer runs than requested blocks: positions 0, 1/64, 2/64, 3/64, 1 with 3 blocks — the middle
+    equal-width bin is empty. *)
+Theorem C18_old_requested_total_refuted :
   exists (chrs : list (list Q)) (nhap : nat),
     Forall (fun c => c <> [] /\ StronglySorted (fun x y => Qle_bool x y = true) c) chrs
     /\ length chrs <= nhap <= length (concat chrs)
     /\ exists nblk bounds, nhaploblk_chrom qops nhap (concat chrs) (starts_from 0 (map (@length Q) chrs)) (stops_from 0 (map (@length Q) chrs)) = Ok nblk
        /\ Forall2 (fun n c => n <= length c) nblk chrs
-       /\ calc_bounds qops nhap (concat chrs) (starts_from 0 (map (@length Q) chrs)) (stops_from 0 (map (@length Q) chrs)) = Some bounds
+       /\ old_calc_bounds qops nhap (concat chrs) (starts_from 0 (map (@length Q) chrs)) (stops_from 0 (map (@length Q) chrs)) = Some bounds
        /\ length bounds < nhap.
-Proof. exact requested_total_refuted. Qed.
-Print Assumptions C18_requested_total_refuted.
+Proof. exact old_requested_total_refuted. Qed.
+Print Assumptions C18_old_requested_total_refuted.
 
-(** REFUTED clause "finite for every valid input": on the same layout (binary64 and rational instances agree) the third
-    block of every copy is never written, and the optimal haploid value of the cross (0,1) and the optimal population
-    value of the selection {0,1} depend on that uninitialised memory. *)
-Theorem C18_finite_refuted :
-  exists hm, calc_haplomat fops EOther EOther 3 wit_geno wit_chr_f [0] [5] [5] wit_u 1 = Ok hm
-    /\ calc_haplomat qops EOther EOther 3 wit_geno wit_chr [0] [5] [5] wit_u 1 = Ok hm
+(** REGRESSION WITNESS, FORMER code: the clause "finite for every valid input" was false: on the same layout (binary64 and
+    rational instances agree) the third block of every copy was never written, and the optimal haploid value of the cross
+    (0,1) and the optimal population value of the selection {0,1} depended on that uninitialised memory. *)
+Theorem C18_old_finite_refuted :
+  exists hm, old_calc_haplomat fops EOther EOther 3 wit_geno wit_chr_f [0] [5] [5] wit_u 1 = Ok hm
+    /\ old_calc_haplomat qops EOther EOther 3 wit_geno wit_chr [0] [5] [5] wit_u 1 = Ok hm
     /\ ent (nth 0 (nth 0 hm []) []) 2 0 = None
     /\ calc_ohvmat 2 3 1 hm (calc_xmap 2 2 true) = [[None]]
     /\ opv_latent 3 1 hm [0; 1] = [None].
-Proof. exact finite_refuted. Qed.
-Print Assumptions C18_finite_refuted.
+Proof. exact old_finite_refuted. Qed.
+Print Assumptions C18_old_finite_refuted.
+
+(** The REPAIRED code on that witness: three runs (the marker at 3/64 becomes the middle block), every entry written, optimal
+    haploid value of the cross (0,1) = 15 and optimal population value latent of {0,1} = -15. *)
+Theorem C18_witness_repaired :
+  calc_bounds qops 3 wit_chr [0] [5] = Some [(0, 3); (3, 4); (4, 5)]
+  /\ exists hm, calc_haplomat fops EOther EOther 3 wit_geno wit_chr_f [0] [5] [5] wit_u 1 = Ok hm
+    /\ calc_haplomat qops EOther EOther 3 wit_geno wit_chr [0] [5] [5] wit_u 1 = Ok hm
+    /\ nth 0 (nth 0 hm []) [] = [[Some 2]; [Some (1#2)]; [Some 4]]%Q
+    /\ (exists v, calc_ohvmat 2 3 1 hm (calc_xmap 2 2 true) = [[Some v]] /\ (v == 15)%Q)
+    /\ exists w, opv_latent 3 1 hm [0; 1] = [Some w] /\ (w == -15)%Q.
+Proof. exact witness_repaired. Qed.
+Print Assumptions C18_witness_repaired.
 
 (** non-vacuity: a concrete layout meets the hypotheses of the theorems above *)
 Example C18_hyps_satisfiable :
@@ -197,7 +275,9 @@ Example C18_hyps_satisfiable :
   /\ haplobin qops [2] [0; 1#2; 1]%Q [0] [3] = [Some 0; Some 1; Some 1]
   /\ calc_bounds qops 2 [0; 1#2; 1]%Q [0] [3] = Some [(0, 1); (1, 3)]
   /\ copies [[[1; 0; 1]; [0; 1; 1]]]%Z [0; 1] = [[1; 0; 1]; [0; 1; 1]]%Z
-  /\ lin_hyp_f [2; 1] [[0; 0.5; 1]; [3; 3.25]]%float = true.
+  /\ lin_hyp_f [2; 1] [[0; 0.5; 1]; [3; 3.25]]%float = true
+  /\ haplobin qops [3] [0; 1#64; 2#64; 3#64; 1]%Q [0] [5] = [Some 0; Some 0; Some 0; Some 1; Some 2]
+  /\ old_haplobin qops [3] [0; 1#64; 2#64; 3#64; 1]%Q [0] [5] = [Some 0; Some 0; Some 0; Some 0; Some 2].
 Proof.
   split; [split; [discriminate|split; [repeat constructor|repeat constructor]]|].
   split; [apply q_bounds_ok; lia|]. split; [cbn; lia|]. repeat split; vm_compute; reflexivity.
